@@ -228,3 +228,329 @@ theorem nextUpDown_spec_big (up : Bool) (x : Q) (limit : Nat) (hx : Reduced x) (
       · rw [e]; linarith [hpq.2]
 
 end Dashu.Model.Ratio
+
+namespace Dashu.Model.Ratio
+open Dashu.Model
+
+/-- two different fractions are at least `1/(q·b)` apart -/
+theorem frac_gap (a p : ℤ) (b q : ℕ) (hb : 0 < b) (hq : 0 < q) (h : (a : ℚ) / b < (p : ℚ) / q) :
+    1 / ((q : ℚ) * b) ≤ (p : ℚ) / q - (a : ℚ) / b := by
+  have hbq : (0 : ℚ) < b := by exact_mod_cast hb
+  have hqq : (0 : ℚ) < q := by exact_mod_cast hq
+  have e1 : a * q < p * b := (cast_lt_iff a b p q hb hq).1 h
+  have e2 : (1 : ℤ) ≤ p * b - a * q := by omega
+  have e3 : (1 : ℚ) ≤ (p : ℚ) * b - a * q := by exact_mod_cast e2
+  have : (p : ℚ) / q - (a : ℚ) / b = ((p : ℚ) * b - a * q) / (q * b) := by field_simp
+  rw [this]
+  exact div_le_div_of_nonneg_right e3 (by positivity)
+
+/-- `1/L²` is too small a step to jump over an element of the Farey sequence of order `L ≥ 2`:
+    no fraction with denominator `≤ L` lies in `(f, f + 1/L²]` when `f` has denominator `≤ L` -/
+theorem no_frac_in_small_step (f : Q) (L : ℕ) (hL : 2 ≤ L) (hfd : 0 < f.den) (hfL : f.den ≤ L)
+    (p : ℤ) (q : ℕ) (hq : 0 < q) (hqL : q ≤ L) (h1 : f.val < (p : ℚ) / q) :
+    f.val + 1 / ((L : ℚ) * L) < (p : ℚ) / q := by
+  have hLq : (0 : ℚ) < L := by exact_mod_cast (by omega : 0 < L)
+  have hbq : (0 : ℚ) < f.den := by exact_mod_cast hfd
+  have hqq : (0 : ℚ) < q := by exact_mod_cast hq
+  have hgap := frac_gap f.num p f.den q hfd hq h1
+  rw [← Q.val_def] at hgap
+  -- q·b ≤ L², with equality only if q = b = L
+  have hqb : (q : ℚ) * f.den ≤ (L : ℚ) * L := by
+    have h1 : (q : ℚ) ≤ L := by exact_mod_cast hqL
+    have h2 : (f.den : ℚ) ≤ L := by exact_mod_cast hfL
+    nlinarith
+  have hstep : 1 / ((L : ℚ) * L) ≤ 1 / ((q : ℚ) * f.den) :=
+    one_div_le_one_div_of_le (by positivity) hqb
+  rcases lt_or_eq_of_le (le_trans hstep hgap) with hlt | heq
+  · linarith
+  · -- equality forces q = f.den = L and (p − f.num)·L = 1
+    exfalso
+    have hq1 : 1 / ((L : ℚ) * L) = 1 / ((q : ℚ) * f.den) := le_antisymm hstep (heq ▸ hgap)
+    have hprod : (q : ℚ) * f.den = (L : ℚ) * L := by
+      have := congrArg (fun t => 1 / t) hq1
+      simpa using this.symm
+    have hprodN : q * f.den = L * L := by exact_mod_cast hprod
+    have hqL' : q = L := by
+      by_contra hne
+      have : q < L := by omega
+      have : q * f.den < L * L := by
+        calc q * f.den ≤ q * L := Nat.mul_le_mul_left q hfL
+          _ < L * L := Nat.mul_lt_mul_of_pos_right this (by omega)
+      omega
+    have hfL' : f.den = L := by
+      rw [hqL'] at hprodN
+      exact Nat.eq_of_mul_eq_mul_left (by omega) hprodN
+    -- p/L − a/L = 1/L²  ⇒  (p − a)·L = 1
+    have : (p : ℚ) / L - (f.num : ℚ) / L = 1 / ((L : ℚ) * L) := by
+      have := heq.symm
+      rw [Q.val_def, hqL', hfL'] at this
+      exact this
+    have h3 : ((p : ℚ) - f.num) * L = 1 := by
+      field_simp at this
+      linarith
+    have h4 : (p - f.num) * (L : ℤ) = 1 := by exact_mod_cast h3
+    have hu : ((L : ℤ)) ∣ 1 := ⟨p - f.num, by rw [← h4]; ring⟩
+    have := Int.le_of_dvd (by decide) hu
+    omega
+
+end Dashu.Model.Ratio
+
+namespace Dashu.Model.Ratio
+open Dashu.Model
+
+/-- fractional part of any reduced number -/
+theorem split_facts' (x : Q) (hx : Reduced x) :
+    ∃ f, splitAtPoint x = .ok (Int.tdiv x.num x.den, f) ∧ Reduced f ∧ f.den ≤ x.den ∧
+      f.val = x.val - (Int.tdiv x.num x.den : ℚ) ∧ -1 < f.val ∧ f.val < 1 := by
+  obtain ⟨a, b⟩ := x
+  have hb : 0 < b := hx.den_pos
+  obtain ⟨hdc, _, _, h3, h4⟩ := tdecomp a b hb
+  have hbq : (0 : ℚ) < b := by exact_mod_cast hb
+  obtain ⟨f, hf1, hf2, hf3⟩ := R.fract_spec ⟨a, b⟩ hx
+  simp only [fract, divRemK_pos _ hb, bind_ok'] at hf1
+  have hfeq : f = if Int.tmod a b = 0 then Q.zero else ⟨Int.tmod a b, b⟩ := by
+    have := hf1; simp only [pure, Except.pure, Except.ok.injEq] at this; exact this.symm
+  have hfv : f.val = (Int.tmod a b : ℚ) / b := by
+    rw [hfeq]; split
+    · rename_i h0; simp [Q.zero, Q.val_def, h0]
+    · rfl
+  refine ⟨f, ?_, hf2, ?_, ?_, ?_, ?_⟩
+  · simp only [splitAtPoint, divRemK_pos _ hb, bind_ok', hfeq]; rfl
+  · rw [hfeq]; split
+    · simp only [Q.zero]; omega
+    · exact le_refl _
+  · rw [hf3, Q.val_mk, trunc_bridge a b hb]
+  · rw [hfv, lt_div_iff₀ hbq]; linarith
+  · rw [hfv, div_lt_iff₀ hbq]; linarith
+
+theorem val_neg_q (f : Q) : (⟨-f.num, f.den⟩ : Q).val = -f.val := by
+  simp [Q.val_def, neg_div]
+
+/-- mirror image of `no_frac_in_small_step` -/
+theorem no_frac_in_small_step_down (f : Q) (L : ℕ) (hL : 2 ≤ L) (hfd : 0 < f.den)
+    (hfL : f.den ≤ L) (p : ℤ) (q : ℕ) (hq : 0 < q) (hqL : q ≤ L) (h1 : (p : ℚ) / q < f.val) :
+    (p : ℚ) / q < f.val - 1 / ((L : ℚ) * L) := by
+  have := no_frac_in_small_step ⟨-f.num, f.den⟩ L hL hfd hfL (-p) q hq hqL
+    (by rw [val_neg_q]; push_cast; rw [neg_div]; linarith)
+  rw [val_neg_q] at this
+  push_cast at this
+  rw [neg_div] at this
+  linarith
+
+theorem one_over_sq_reduced (L : ℕ) (hL : 0 < L) : Reduced ⟨1, L * L⟩ :=
+  ⟨Nat.mul_pos hL hL, by simp⟩
+
+/-- **`next_up` / `next_down`** when the denominator already fits (`limit ≥ 2`): the `1/limit²`
+    nudge finds the adjacent element of the Farey sequence -/
+theorem nextUpDown_spec_small (up : Bool) (x : Q) (limit : Nat) (hx : Reduced x) (hl : 2 ≤ limit)
+    (hsm : x.den ≤ limit) :
+    ∃ r, nextUpDown up x limit = .ok (some r) ∧ Reduced r ∧ r.den ≤ limit ∧
+      (if up then x.val < r.val else r.val < x.val) ∧
+      ∀ (p : ℤ) (q : ℕ), 0 < q →
+        (if up then x.val < (p : ℚ) / q ∧ (p : ℚ) / q < r.val
+         else r.val < (p : ℚ) / q ∧ (p : ℚ) / q < x.val) → limit < q := by
+  obtain ⟨f, hsplit, hfred, hfden, hfval, hf1, hf2⟩ := split_facts' x hx
+  set t := Int.tdiv x.num x.den with ht
+  have hLpos : 0 < limit := by omega
+  have hLq : (0 : ℚ) < limit := by exact_mod_cast hLpos
+  have hsq := one_over_sq_reduced limit hLpos
+  have hsqv : (⟨1, limit * limit⟩ : Q).val = 1 / ((limit : ℚ) * limit) := by
+    simp [Q.val_def]
+  have hstep : (0 : ℚ) < 1 / ((limit : ℚ) * limit) := by positivity
+  have hfL : f.den ≤ limit := le_trans hfden hsm
+  have hxv : x.val = f.val + t := by rw [hfval]; ring
+  have e (p : ℤ) (q : ℕ) (hq : 0 < q) : ((p - t * q : ℤ) : ℚ) / q = (p : ℚ) / q - t := by
+    have : (q : ℚ) ≠ 0 := by exact_mod_cast hq.ne'
+    push_cast; field_simp
+  cases up
+  · -- next_down: target = f − 1/L²
+    obtain ⟨tg, htg1, htg2, htg3⟩ := R.sub_spec f ⟨1, limit * limit⟩ hfred hsq
+    rw [hsqv] at htg3
+    have hlow : -1 < tg.val := by
+      rw [htg3]
+      have := no_frac_in_small_step_down f limit hl hfred.den_pos hfL (-1) 1 (by decide)
+        (by omega) (by simpa using hf1)
+      simpa using this
+    obtain ⟨l, r, hfn, hinv, hsum⟩ := fareyNeighbors_spec tg limit htg2.den_pos (by omega)
+      hlow.le (by rw [htg3]; linarith)
+    obtain ⟨s1, s2, s3⟩ := shift_spec l t hinv.reduced_left
+    have hres : nextUpDown false x limit = .ok (some (R.addSubInt false l t)) := by
+      simp only [nextUpDown, if_neg (by omega : ¬ limit = 0), hsplit, bind_ok', if_pos hsm,
+        Bool.false_eq_true, if_false, htg1, hfn]
+      rfl
+    refine ⟨_, hres, s1, by simpa [s3] using hinv.lle, ?_, ?_⟩
+    · simp only [Bool.false_eq_true, if_false, s2, hxv]
+      have := hinv.lo; rw [htg3] at this; linarith
+    · intro p q hq hpq
+      simp only [Bool.false_eq_true, if_false, s2, hxv] at hpq
+      by_contra hcon
+      have hqL : q ≤ limit := by omega
+      have h3 := no_frac_in_small_step_down f limit hl hfred.den_pos hfL (p - t * q) q hq hqL
+        (by rw [e p q hq]; linarith [hpq.2])
+      have := hinv.consecutive hsum (p - t * q) q hq (by rw [e p q hq]; linarith [hpq.1])
+        (by have := hinv.hi; rw [htg3] at this; linarith)
+      omega
+  · -- next_up: target = f + 1/L²
+    obtain ⟨tg, htg1, htg2, htg3⟩ := R.add_spec f ⟨1, limit * limit⟩ hfred hsq
+    rw [hsqv] at htg3
+    have hhigh : tg.val < 1 := by
+      rw [htg3]
+      have := no_frac_in_small_step f limit hl hfred.den_pos hfL 1 1 (by decide) (by omega)
+        (by simpa using hf2)
+      simpa using this
+    obtain ⟨l, r, hfn, hinv, hsum⟩ := fareyNeighbors_spec tg limit htg2.den_pos (by omega)
+      (by rw [htg3]; linarith) hhigh
+    obtain ⟨s1, s2, s3⟩ := shift_spec r t hinv.reduced_right
+    have hres : nextUpDown true x limit = .ok (some (R.addSubInt false r t)) := by
+      simp only [nextUpDown, if_neg (by omega : ¬ limit = 0), hsplit, bind_ok', if_pos hsm,
+        if_true, htg1, hfn]
+      rfl
+    refine ⟨_, hres, s1, by simpa [s3] using hinv.rle, ?_, ?_⟩
+    · simp only [if_true, s2, hxv]
+      have := hinv.hi; rw [htg3] at this; linarith
+    · intro p q hq hpq
+      simp only [if_true, s2, hxv] at hpq
+      by_contra hcon
+      have hqL : q ≤ limit := by omega
+      have h3 := no_frac_in_small_step f limit hl hfred.den_pos hfL (p - t * q) q hq hqL
+        (by rw [e p q hq]; linarith [hpq.1])
+      have := hinv.consecutive hsum (p - t * q) q hq
+        (by have := hinv.lo; rw [htg3] at this; linarith) (by rw [e p q hq]; linarith [hpq.2])
+      omega
+
+end Dashu.Model.Ratio
+
+namespace Dashu.Model.Ratio
+open Dashu.Model
+
+/-- `limit = 1`: integers; the neighbours are `n ∓ 1` -/
+theorem nextUpDown_limit_one (up : Bool) (n : ℤ) :
+    nextUpDown up ⟨n, 1⟩ 1 = .ok (some ⟨if up then n + 1 else n - 1, 1⟩) := by
+  have hsplit : splitAtPoint ⟨n, 1⟩ = .ok (n, Q.zero) := by
+    simp [splitAtPoint, divRemK]
+  have h12 : reduce ⟨1, 2⟩ = .ok ⟨1, 2⟩ := by decide
+  have hm12 : reduce ⟨-1, 2⟩ = .ok ⟨-1, 2⟩ := by decide
+  cases up
+  · have htg : R.sub Q.zero ⟨1, 1 * 1⟩ = .ok ⟨-1, 1⟩ := by decide
+    have hfn : fareyNeighbors ⟨-1, 1⟩ 1 = .ok (some (Q.negOne, Q.zero)) := by
+      simp [fareyNeighbors, fareyLoop, Q.negOne, Q.zero, hm12]; rfl
+    unfold nextUpDown
+    simp only [hsplit, bind_ok', htg, Nat.one_ne_zero, if_false, le_refl, if_true,
+      Bool.false_eq_true]
+    rw [hfn]
+    simp only [bind_ok', R.addSubInt, Q.negOne, Bool.false_eq_true, if_false]
+    simp only [pure, Except.pure]
+    congr 2
+    simp; ring
+  · have htg : R.add Q.zero ⟨1, 1 * 1⟩ = .ok ⟨1, 1⟩ := by decide
+    have hfn : fareyNeighbors ⟨1, 1⟩ 1 = .ok (some (Q.zero, Q.one)) := by
+      simp [fareyNeighbors, fareyLoop, Q.one, Q.zero, h12]; rfl
+    unfold nextUpDown
+    simp only [hsplit, bind_ok', htg, Nat.one_ne_zero, if_false, le_refl, if_true]
+    rw [hfn]
+    simp only [bind_ok', R.addSubInt, Q.one, Bool.false_eq_true, if_false]
+    simp only [pure, Except.pure]
+    congr 2
+    simp; ring
+
+/-- **`RBig::next_up` / `RBig::next_down`** for every reduced `x` and every `limit ≥ 1`: the
+    result is reduced with a denominator `≤ limit`, lies strictly above / below `x`, and no
+    fraction with a denominator `≤ limit` lies strictly between `x` and it — it is the adjacent
+    element of the Farey sequence of order `limit`.  `limit = 0` panics. -/
+theorem nextUpDown_spec (up : Bool) (x : Q) (limit : Nat) (hx : Reduced x) :
+    (limit = 0 → nextUpDown up x limit = .error .divideByZero) ∧
+    (1 ≤ limit → ∃ r, nextUpDown up x limit = .ok (some r) ∧ Reduced r ∧ r.den ≤ limit ∧
+      (if up then x.val < r.val else r.val < x.val) ∧
+      ∀ (p : ℤ) (q : ℕ), 0 < q →
+        (if up then x.val < (p : ℚ) / q ∧ (p : ℚ) / q < r.val
+         else r.val < (p : ℚ) / q ∧ (p : ℚ) / q < x.val) → limit < q) := by
+  constructor
+  · intro h; simp [nextUpDown, h]
+  · intro hl
+    by_cases hbig : limit < x.den
+    · exact nextUpDown_spec_big up x limit hx hl hbig
+    · by_cases h2 : 2 ≤ limit
+      · exact nextUpDown_spec_small up x limit hx h2 (by omega)
+      · -- limit = 1, x an integer
+        have hL : limit = 1 := by omega
+        have hd : x.den = 1 := by have := hx.den_pos; omega
+        obtain ⟨n, d⟩ := x
+        simp only at hd
+        subst hd; subst hL
+        refine ⟨_, nextUpDown_limit_one up n, ⟨by simp, by simp⟩, le_refl _, ?_, ?_⟩
+        · cases up <;> simp [Q.val_def]
+        · intro p q hq hpq
+          by_contra hcon
+          have hq1 : q = 1 := by omega
+          subst hq1
+          cases up
+          · simp only [Bool.false_eq_true, if_false, Q.val_def, Nat.cast_one, div_one] at hpq
+            have a : n - 1 < p := by exact_mod_cast hpq.1
+            have b : p < n := by exact_mod_cast hpq.2
+            omega
+          · simp only [if_true, Q.val_def, Nat.cast_one, div_one] at hpq
+            have a : n < p := by exact_mod_cast hpq.1
+            have b : p < n + 1 := by exact_mod_cast hpq.2
+            omega
+
+/-- **`RBig::nearest`**: exact iff the denominator fits; otherwise the closer of `next_down` /
+    `next_up` (the lower one on a tie) with the sign of `result − x` -/
+theorem nearest_spec (x : Q) (limit : Nat) (hx : Reduced x) :
+    (limit = 0 → nearest x limit = .error .divideByZero) ∧
+    (1 ≤ limit → x.den ≤ limit → nearest x limit = .ok (some (.exact x))) ∧
+    (1 ≤ limit → limit < x.den → ∃ dn up, nextUpDown false x limit = .ok (some dn) ∧
+      nextUpDown true x limit = .ok (some up) ∧ dn.val < x.val ∧ x.val < up.val ∧
+      ((up.val - x.val < x.val - dn.val ∧ nearest x limit = .ok (some (.inexact up false))) ∨
+       (x.val - dn.val ≤ up.val - x.val ∧ nearest x limit = .ok (some (.inexact dn true))))) := by
+  refine ⟨fun h => by simp [nearest, h], fun hl hsm => ?_, fun hl hbig => ?_⟩
+  · have h0 : limit ≠ 0 := by omega
+    simp [nearest, h0, hsm]
+  · obtain ⟨f, hsplit, hfred, hfden, hfval, hf1, hf2⟩ := split_facts x hx (by omega)
+    set t := Int.tdiv x.num x.den with ht
+    obtain ⟨l, r, hfn, hinv, hsum⟩ := fareyNeighbors_spec f limit hfred.den_pos hl hf1.le hf2
+    have hlred := hinv.reduced_left
+    have hrred := hinv.reduced_right
+    have hlt : l.val < f.val := by
+      rcases lt_or_eq_of_le hinv.lo with h | h
+      · exact h
+      · have := Reduced.ext hlred hfred h
+        have hd : l.den = f.den := by rw [this]
+        have := hinv.lle
+        omega
+    have hxv : x.val = f.val + t := by rw [hfval]; ring
+    obtain ⟨sl1, sl2, _⟩ := shift_spec l t hlred
+    obtain ⟨sr1, sr2, _⟩ := shift_spec r t hrred
+    have hdn : nextUpDown false x limit = .ok (some (R.addSubInt false l t)) := by
+      simp only [nextUpDown, if_neg (by omega : ¬ limit = 0), hsplit, bind_ok',
+        if_neg (by omega : ¬ x.den ≤ limit), pure_bind, hfn]
+      rfl
+    have hup : nextUpDown true x limit = .ok (some (R.addSubInt false r t)) := by
+      simp only [nextUpDown, if_neg (by omega : ¬ limit = 0), hsplit, bind_ok',
+        if_neg (by omega : ¬ x.den ≤ limit), pure_bind, hfn]
+      rfl
+    obtain ⟨s, hs1, hs2, hs3⟩ := R.add_spec l r hlred hrred
+    have hmid : (⟨s.num, s.den * 2⟩ : Q).val = (l.val + r.val) / 2 := by
+      have hsd : (s.den : ℚ) ≠ 0 := by exact_mod_cast hs2.den_pos.ne'
+      rw [← hs3]; simp only [Q.val_def]; push_cast; field_simp
+    have hmd : 0 < (⟨s.num, s.den * 2⟩ : Q).den := by
+      have := hs2.den_pos; simp only; omega
+    refine ⟨_, _, hdn, hup, by rw [sl2, hxv]; linarith, by rw [sr2, hxv]; linarith [hinv.hi], ?_⟩
+    have hnear : nearest x limit =
+        if cmpQ f ⟨s.num, s.den * 2⟩ = .gt then .ok (some (.inexact (R.addSubInt false r t) false))
+        else .ok (some (.inexact (R.addSubInt false l t) true)) := by
+      simp only [nearest, if_neg (by omega : ¬ limit = 0), if_neg (by omega : ¬ x.den ≤ limit),
+        hsplit, bind_ok', hfn, hs1]
+      split <;> rfl
+    by_cases hgt : cmpQ f ⟨s.num, s.den * 2⟩ = .gt
+    · left
+      have := (cmpQ_gt_iff f _ hfred.den_pos hmd).1 hgt
+      rw [hmid] at this
+      refine ⟨by rw [sl2, sr2, hxv]; linarith, by rw [hnear, if_pos hgt]⟩
+    · right
+      have : f.val ≤ (⟨s.num, s.den * 2⟩ : Q).val := by
+        by_contra hc
+        exact hgt ((cmpQ_gt_iff f _ hfred.den_pos hmd).2 (not_le.mp hc))
+      rw [hmid] at this
+      refine ⟨by rw [sl2, sr2, hxv]; linarith, by rw [hnear, if_neg hgt]⟩
+
+end Dashu.Model.Ratio
